@@ -209,7 +209,7 @@ def run_c22(v):
     r = lib.tlc_mc("MC_Suggest.tla", _cfg("MC_Suggest_firstseg_run.cfg", MC_SUGGEST.format(variant="firstseg", ndocs=2)),
                    timeout=1200, coverage=False, workers=4)
     lib.expect_mc_violation(r, "MC_Suggest variant firstseg", {"LayoutIndependent", "DfIsCount"})
-    s = _drive(v, "suggest", "random", {"C22"}, ["--scenarios", 10 if quick else 400, "--requests", 30 if quick else 60])
+    s = _drive(v, "suggest", "random", {"C22"}, ["--scenarios", 16 if quick else 400, "--requests", 30 if quick else 60])
     v.coverage.update({
         "states": mc["distinct"], "transitions": mc["states"],
         "traces_validated_against_impl": s["scenarios"], "requests_judged": s["requests"],
